@@ -12,6 +12,7 @@ import ALV.Lemmas.C05Canon
 import ALV.Lemmas.C05Lin
 import ALV.Lemmas.C05Hist
 import ALV.Lemmas.C05Subst
+import ALV.Lemmas.C05Src
 import ALV.Model.C05Lin
 import ALV.Spec.C05
 import ALV.Common.Audit
@@ -1254,6 +1255,65 @@ example : evalComp f1 (monoZF (1/3) 2) 2 = some (-13/5) ∧
 example := hist_replace_part (K := ℚ) envQ ⟨true, 0⟩ (.cons (.leaf f1) (.cons (.leaf g2) .nil)) (-1) 1 (.leaf g1) (by decide)
 example : (runHist envQ ⟨true, 0⟩ (.cons (.leaf f1) .nil) [.polys, .act (.setItem 0 (.leaf g1)), .polys, .lists, .call [1, 2]]).map
     List.length = some 4 := by decide +kernel
+
+/-! ## C05.S the model IS the source: definitions regenerated from `lazy_filters.py` on every run
+
+`ALV/Gen/C05Src.lean` is written by the translator `harness/props/c05_tr.py` from the source text of the repo under
+test (one definition per method and kind of argument).  Each theorem states that the regenerated definition equals
+the hand-written model function all the theorems above are about — for every number type (no field needed). -/
+section Src
+variable {α : Type} [Add α] [Mul α] [Sub α] [Neg α] [Div α] [OfNat α 0] [OfNat α 1] [DecidableEq α]
+local notation "R" => Except PyErr (ZF α)
+
+/-- `LinearFilter.__init__` (coefficients branch): copy, minimum power, normalisation by `Poly([0, 1]) ** -power` -/
+theorem src_ofPolys_is_model : (ALV.Gen.C05.ofPolys : MPoly α → MPoly α → R) = ALV.C05.ofPolys := Src.ofPolys_is_model
+/-- `ZFilter([c])`: the default denominator `{0: 1}` of the signature -/
+theorem src_ofScalar_is_model (c : α) :
+    ALV.Gen.C05.ofPolys (C07.ofList [c]) ALV.Gen.C05.defaultDen = ALV.C05.ofScalar c := Src.ofScalar_is_model c
+theorem src_z_is_model : (ALV.Gen.C05.z : R) = ALV.C05.z := Src.z_is_model
+theorem src_eq_is_model : (ALV.Gen.C05.eq : ZF α → ZF α → Bool) = ALV.C05.eq := Src.eq_is_model
+/-- `LinearFilter.__ne__` as coded today is the repaired shape `not (self == other)` (defect D2 stays repaired) -/
+theorem src_ne_is_model : (ALV.Gen.C05.ne : ZF α → ZF α → Bool) = ALV.C05.neFixed := Src.ne_is_model
+theorem src_eqNumber_is_model (f : ZF α) (c : α) : ALV.Gen.C05.eqNumber f c = FL.eq (.leaf f) (.num c) :=
+  Src.eqNumber_is_model f c
+theorem src_hashKey_is_model : (ALV.Gen.C05.hashKey : ZF α → List Int) = ALV.C05.hashKey := Src.hashKey_is_model
+theorem src_neg_is_model : (ALV.Gen.C05.neg : ZF α → R) = ALV.C05.neg := Src.neg_is_model
+theorem src_pos_is_model : (ALV.Gen.C05.pos : ZF α → R) = ALV.C05.pos := Src.pos_is_model
+/-- `ZFilter.__add__` on two filters: same-denominator shortcut, else the cross-multiplied sum -/
+theorem src_add_is_model : (ALV.Gen.C05.add : ZF α → ZF α → R) = ALV.C05.add := Src.add_is_model
+theorem src_addScalar_is_model : (ALV.Gen.C05.addScalar : ZF α → α → R) = ALV.C05.addScalar := Src.addScalar_is_model
+theorem src_sub_is_model : (ALV.Gen.C05.sub : ZF α → ZF α → R) = ALV.C05.sub := Src.sub_is_model
+theorem src_subScalar_is_model : (ALV.Gen.C05.subScalar : ZF α → α → R) = ALV.C05.subScalar := Src.subScalar_is_model
+theorem src_mul_is_model : (ALV.Gen.C05.mul : ZF α → ZF α → R) = ALV.C05.mul := Src.mul_is_model
+theorem src_mulScalar_is_model : (ALV.Gen.C05.mulScalar : ZF α → α → R) = ALV.C05.mulScalar := Src.mulScalar_is_model
+theorem src_truediv_is_model : (ALV.Gen.C05.truediv : ZF α → ZF α → R) = ALV.C05.truediv := Src.truediv_is_model
+/-- `self / number`: `operator.truediv(1, other)` raises before anything is built -/
+theorem src_divScalar_is_model : (ALV.Gen.C05.divScalar : ZF α → α → R) = ALV.C05.divScalar := Src.divScalar_is_model
+theorem src_raddScalar_is_model : (ALV.Gen.C05.raddScalar : α → ZF α → R) = ALV.C05.raddScalar := Src.raddScalar_is_model
+theorem src_rsubScalar_is_model : (ALV.Gen.C05.rsubScalar : α → ZF α → R) = ALV.C05.rsubScalar := Src.rsubScalar_is_model
+theorem src_rmulScalar_is_model : (ALV.Gen.C05.rmulScalar : α → ZF α → R) = ALV.C05.rmulScalar := Src.rmulScalar_is_model
+theorem src_rdivScalar_is_model : (ALV.Gen.C05.rdivScalar : α → ZF α → R) = ALV.C05.rdivScalar := Src.rdivScalar_is_model
+/-- `ZFilter.__pow__` calls `**` again on the flipped filter: the regenerated body run with ANY recursion budget of
+at least 2 is the model (which has the second call inlined) -/
+theorem src_pow_is_model (k : ℕ) (f : ZF α) (n : ℤ) : ALV.Gen.C05.powFuel (k + 2) f n = ALV.C05.pow f n :=
+  Src.powFuel_is_model k f n
+theorem src_pow_is_model' : (ALV.Gen.C05.pow : ZF α → ℤ → R) = ALV.C05.pow := Src.pow_is_model
+/-- `ZFilter.__call__` with a ZFilter: the quotient of the two `sum(v * seq ** -k …)` -/
+theorem src_subst_is_model : (ALV.Gen.C05.subst : ZF α → ZF α → R) = ALV.C05.subst := Src.subst_is_model
+/-- a `LinearFilter` that is not a `ZFilter` on the right; a ZFilter reaching a reflected operator -/
+theorem src_foreign_is_model (f g : ZF α) (op : BinOp) :
+    ALV.Gen.C05.addForeign f = .error (opForeign .add) ∧ ALV.Gen.C05.subForeign f = .error (opForeign .sub) ∧
+    ALV.Gen.C05.mulForeign f = .error (opForeign .mul) ∧ ALV.Gen.C05.divForeign f = .error (opForeign .div) ∧
+    ALV.Gen.C05.ropZFilter f g = .error (ropZFilter op) :=
+  ⟨rfl, rfl, rfl, rfl, rfl⟩
+
+/-- hence every theorem about the model speaks about the regenerated code, e.g. totality on valid filters -/
+theorem src_operators_total {f g : ZF K} (hf : Valid f) (hg : Valid g) :
+    (∃ h, ALV.Gen.C05.add f g = .ok h ∧ Valid h) ∧ (∃ h, ALV.Gen.C05.mul f g = .ok h ∧ Valid h) ∧
+    (∃ h, ALV.Gen.C05.pow f 3 = .ok h ∧ Valid h) := by
+  rw [src_add_is_model, src_mul_is_model, src_pow_is_model']
+  exact ⟨(operators_total hf hg 0 3).1, (operators_total hf hg 0 3).2.2.1, (operators_total hf hg 0 3).2.2.2.2.2.1⟩
+end Src
 
 end ALV.Props.C05
 
